@@ -433,8 +433,9 @@ fn run_family(seed: u64, f: u64, q_per_fam: usize) -> FamOut {
         docs.push(json!({"big": big, "ints": [1, 9007199254740993i64, 14], "sets": [[1], [1.0], [9007199254740993i64], ["x"], [14, 7]], "one": 1, "f": 1.0}));
     }
     if f % 13 == 5 {
-        // the same document under 40-125 levels of nesting (still within what serde_json parses)
-        let levels = 40 + rng.below(86);
+        // the same document under 40-159 levels of nesting (beyond 127 only a Value built in code gets
+        // there: serde_json's parser stops at 128, and a Value-only shortcut might stop with it)
+        let levels = 40 + rng.below(120);
         let mut v = base.clone();
         for i in 0..levels {
             v = if (i + f as usize) % 3 == 0 { json!({ "k": v }) } else { json!([v]) };
